@@ -48,8 +48,9 @@ V_ENSURES(__CPROVER_is_fresh(V_RET, sizeof(struct _queue)) && V_RET->len == 0 &&
 V_CONTRACT
 int m_queue_free(m_queue_t **q)
 V_REQUIRES(q != NULL && V_RW_OK(q, sizeof(*q)) && (*q == NULL || V_Q_OK(*q)))
-V_ASSIGNS(*q, g.qfree_calls, g.qfree_arg)
-V_ENSURES(V_RET == 0 && *q == NULL && g.qfree_calls == V_OLD(g.qfree_calls) + 1 && __CPROVER_pointer_equals(g.qfree_arg, V_OLD(*q)))
+V_ASSIGNS(*q, g.qfree_calls, g.qfree_arg, g.qfree_at_unref)
+/* (g.qfree_at_unref: how many references had been dropped when the queue -- and with it its events and their sources -- was destroyed) */
+V_ENSURES(V_RET == 0 && *q == NULL && g.qfree_calls == V_OLD(g.qfree_calls) + 1 && __CPROVER_pointer_equals(g.qfree_arg, V_OLD(*q)) && g.qfree_at_unref == g.unref_calls)
 ;
 
 V_CONTRACT
